@@ -288,12 +288,22 @@ impl<H: MsgHeader> Endpoint<H> {
     /// * - SocketError: other socket related errors.
     pub fn recv_data(&mut self, len: usize) -> Result<(usize, Vec<u8>)> {
         let mut rbuf = vec![0u8; len];
-        let mut iovs = [iovec {
-            iov_base: rbuf.as_mut_ptr() as *mut c_void,
-            iov_len: len,
-        }];
-        // SAFETY: Safe because we own rbuf and it's safe to fill a byte array with arbitrary data.
-        let (bytes, _) = unsafe { self.sock.recv_with_fds(&mut iovs, &mut [])? };
+        let mut bytes = 0;
+        // The transport is a stream: the data may arrive in several segments, so keep reading
+        // until `len` bytes have been received or the peer closed the connection.
+        while bytes < len {
+            let mut iovs = [iovec {
+                iov_base: rbuf[bytes..].as_mut_ptr() as *mut c_void,
+                iov_len: len - bytes,
+            }];
+            // SAFETY: Safe because we own rbuf and it's safe to fill a byte array with arbitrary
+            // data.
+            let (n, _) = unsafe { self.sock.recv_with_fds(&mut iovs, &mut [])? };
+            if n == 0 {
+                break;
+            }
+            bytes += n;
+        }
         Ok((bytes, rbuf))
     }
 
